@@ -487,7 +487,7 @@ Section Main.
 
   (* the statement for one schema *)
   Definition preserved_at (s : schema) : Prop :=
-    forall name o, supported_with false s = true -> j2oas name s = Ok o ->
+    forall name o, supported_with false false s = true -> j2oas name s = Ok o ->
                    forall j, VO o j = VJ s j.
 
   Lemma object_case (ov : option (objval schema)) k j :
@@ -499,8 +499,8 @@ Section Main.
     | None => true
     | Some ov =>
         is_nil (ov_pattern_properties ov) && is_none (ov_property_names ov)
-        && forallb (fun p => supported_with false (snd p)) (ov_properties ov)
-        && conv_addl (supported_with false) (ov_additional_properties ov)
+        && forallb (fun p => supported_with false false (snd p)) (ov_properties ov)
+        && conv_addl (supported_with false false) (ov_additional_properties ov)
     end = true ->
     j2oas_object (j2oas None) ov = Ok k ->
     valid_okind pat_ok fmt_ok VO k j
@@ -570,7 +570,7 @@ Section Main.
         is_none (av_contains av) &&
         match av_items av with
         | None => true
-        | Some (Single i) => supported_with false i
+        | Some (Single i) => supported_with false false i
         | Some (Multi _) => false
         end
     end = true ->
@@ -608,7 +608,7 @@ Section Main.
     (forall c, In c (match sb_any_of sb with Some l => l | None => [] end) -> preserved_at c) ->
     (forall c, In c (match sb_one_of sb with Some l => l | None => [] end) -> preserved_at c) ->
     (forall c, sb_not sb = Some c -> preserved_at c) ->
-    no_if sb = true -> subs_all (supported_with false) sb = true ->
+    no_if sb = true -> subs_all (supported_with false false) sb = true ->
     j2oas_subschemas (j2oas None) sb = Ok k ->
     valid_okind pat_ok fmt_ok VO k j = valid_subs VJ sb j.
   Proof.
@@ -901,8 +901,8 @@ Qed.
 
 (* ================================================================ *)
 
-Lemma supported_convertible_n b :
-  forall n s, (schema_size s <= n)%nat -> supported_with b s = true -> convertible s = true.
+Lemma supported_convertible_n b b2 :
+  forall n s, (schema_size s <= n)%nat -> supported_with b b2 s = true -> convertible s = true.
 Proof.
   induction n as [|n IH]; intros s Hsz.
   { destruct s; cbn in Hsz; lia. }
@@ -944,7 +944,7 @@ Proof.
     destruct sb as [all any one nt i th el].
     cbn [sb_all_of sb_any_of sb_one_of sb_not] in *.
     assert (HL : forall l, (S (size_list schema_size l) <= n)%nat ->
-                           forallb (supported_with b) l = true -> forallb convertible l = true).
+                           forallb (supported_with b b2) l = true -> forallb convertible l = true).
     { intros l Hl Hs. rewrite forallb_forall in *. intros c Hc. apply IH; auto.
       pose proof (size_list_In c l Hc). lia. }
     destruct all as [l|], any as [l2|], one as [l3|], nt as [c|]; try discriminate.
@@ -954,9 +954,9 @@ Proof.
     + apply IH; auto. cbn [size_opt] in Hsz. lia.
 Qed.
 
-(* [supported_with false] is the smaller class *)
-Lemma supported_nonull_supported_n :
-  forall n s, (schema_size s <= n)%nat -> supported_with false s = true -> supported_with true s = true.
+(* [supported_with false false] is the smallest class *)
+Lemma supported_faithful_mono_n b1 b2 :
+  forall n s, (schema_size s <= n)%nat -> supported_with false false s = true -> supported_with b1 b2 s = true.
 Proof.
   induction n as [|n IH]; intros s Hsz.
   { destruct s; cbn in Hsz; lia. }
@@ -970,6 +970,7 @@ Proof.
   destruct ity as [[t|ts]|]; [| discriminate |].
   - destruct subs as [sb|]; [destruct t; discriminate|].
     destruct t; auto.
+    + (* null *) cbn in H. discriminate.
     + (* object *)
       apply andb_true_iff in H as [H0 H]. rewrite H0. cbn [andb].
       destruct obj as [ov|]; [|reflexivity].
@@ -986,14 +987,16 @@ Proof.
       apply andb_true_iff in H as [H1 H]. rewrite H1. cbn [andb].
       destruct (av_items av) as [[i|ss]|] eqn:E; auto.
       apply IH; auto. cbn [size_sov] in Hsz. lia.
+    + (* integer *) rewrite !andb_true_iff in H. destruct H as [[Hb Hx] He].
+      rewrite Hb, He. cbn in Hx. rewrite Hx, orb_true_r. reflexivity.
   - destruct subs as [sb|]; [|auto].
     rewrite !andb_true_iff in H. destruct H as [[H1 H2] H]. rewrite H1, H2. cbn [andb].
     unfold subs_all in *.
     destruct sb as [all any one nt i th el].
     cbn [sb_all_of sb_any_of sb_one_of sb_not] in *.
     assert (HL : forall l, (S (size_list schema_size l) <= n)%nat ->
-                           forallb (supported_with false) l = true ->
-                           forallb (supported_with true) l = true).
+                           forallb (supported_with false false) l = true ->
+                           forallb (supported_with b1 b2) l = true).
     { intros l Hl Hs. rewrite forallb_forall in *. intros c Hc'. apply IH; auto.
       pose proof (size_list_In c l Hc'). lia. }
     destruct all as [l|], any as [l2|], one as [l3|], nt as [c|]; try discriminate.
@@ -1033,8 +1036,8 @@ Qed.
 (* title (or the supplied name), description, default, nullable, deprecated,
    read/write-only, x- extensions, example: unconditionally; format: for every
    supported schema *)
-Theorem annotations_kept_top b name so d k :
-  supported_with b (SObj so) = true ->
+Theorem annotations_kept_top b b2 name so d k :
+  supported_with b b2 (SObj so) = true ->
   j2oas name (SObj so) = Ok (OItem d k) ->
   annot_oas d k = annot_js name so.
 Proof.
